@@ -62,3 +62,14 @@ func init() {
 		mutant{"found-flag-ignored", "pkg/engine/ops.go", "\t\textID, found := hnswIndex.GetExternalID(id)\n\t\tif !found {\n\t\t\tcontinue\n\t\t}\n\t\tfinalRes = append", "\t\textID, _ := hnswIndex.GetExternalID(id)\n\t\tfinalRes = append", "GRD-xlate", "fused-translate"},
 	)
 }
+
+func init() {
+	addMutants("C08",
+		mutant{"restore-path-skips-lists", "pkg/core/core.go", "\t\tcase []interface{}:\n\t\t\t// Index every element, exactly like AddMetadata", "\t\tcase []string:\n\t\t\t// Index every element, exactly like AddMetadata", "SIB-1", "AddMetadataUnlocked=AddMetadata"},
+		mutant{"parser-knows-unevaluated-operator", "pkg/core/core.go", "case \"!=\", \"<=\", \">=\":\n\t\t\t\treturn filter[i : i+2], i", "case \"!=\", \"<=\", \">=\", \"==\":\n\t\t\t\treturn filter[i : i+2], i", "TBL-ops", "recognised:=="},
+		mutant{"complement-against-raw-range", "pkg/core/core.go", "\t\tallValidIDs, err := s.getAllValidNodeIDsLocked(indexName)\n\t\tif err != nil {\n\t\t\treturn nil, err\n\t\t}\n\n\t\tmatchedSet := roaring.New()", "\t\tallValidIDs := roaring.New()\n\t\tallValidIDs.AddRange(0, 1<<20)\n\n\t\tmatchedSet := roaring.New()", "GRD-live", "complement-base"},
+		mutant{"equality-returns-stored-bitmap", "pkg/core/core.go", "\t\t\t\tif valSet, ok := keyMetadata[valueStr]; ok {\n\t\t\t\t\tidSet.Or(valSet)\n\t\t\t\t}\n\t\t\t}\n\t\t}\n\n\t\treturn idSet, nil\n\n\tcase \"<\", \"<=\", \">\", \">=\":", "\t\t\t\tif valSet, ok := keyMetadata[valueStr]; ok && idSet.IsEmpty() {\n\t\t\t\t\treturn valSet, nil\n\t\t\t\t}\n\t\t\t}\n\t\t}\n\n\t\treturn idSet, nil\n\n\tcase \"<\", \"<=\", \">\", \">=\":", "GRD-alias", "returns-owned-bitmap"},
+		mutant{"unchanged-test-by-rendering", "pkg/core/core.go", "\treturn reflect.DeepEqual(a, b)\n}", "\t_ = reflect.DeepEqual\n\treturn fmt.Sprint(a) == fmt.Sprint(b)\n}", "SIB-same", "no-string-rendering"},
+		mutant{"removal-arm-forgotten", "pkg/core/core.go", "\tcase []interface{}:\n\t\tif invIdx, ok := s.invertedIndex[indexName]; ok {\n\t\t\tif keyMap, ok := invIdx[key]; ok {\n\t\t\t\tfor _, elem := range old {", "\tcase []string:\n\t\tif invIdx, ok := s.invertedIndex[indexName]; ok {\n\t\t\tif keyMap, ok := invIdx[key]; ok {\n\t\t\t\tfor _, elem := range old {", "SIB-1", "removeOldIndexEntries:has:[]interface{}"},
+	)
+}
